@@ -53,7 +53,9 @@ func (p pool) first(s string) pool {
 	return p
 }
 
-func (p pool) draw(t *rapid.T, label string) string { return rapid.SampledFrom([]string(p)).Draw(t, label) }
+func (p pool) draw(t *rapid.T, label string) string {
+	return rapid.SampledFrom([]string(p)).Draw(t, label)
+}
 
 func pct(p int) pool { return newPool("y", p, "n", 100-p) }
 
